@@ -121,6 +121,23 @@ def ftbl(keys, vals):
     return lst(["(%s, %s)" % (fl(k), fl(v)) for k, v in zip(np.asarray(keys).reshape(-1), np.asarray(vals).reshape(-1))])
 
 
+def fd_estimate(f, x0, h0, levels=6, rel=1e-4, floor=1e-12):
+    """Richardson-extrapolated central differences with step control: the step is divided by 3 until two successive
+    estimates agree to [rel] (relative; [floor] absolute). Returns (estimate, error estimate, converged). A narrow
+    feature of f inside the step (EI hinge at incumbent - jitter, the CEI feasibility probability switching over a
+    width ~std of the constraint model) shows up as disagreement between step sizes instead of a false alarm."""
+    prev, h = richardson(f, x0, h0), h0
+    est, err = prev, float("inf")
+    for _ in range(levels):
+        h = h / 3.0
+        est = richardson(f, x0, h)
+        err = abs(est - prev)
+        if err <= rel * max(abs(est), abs(prev)) + floor:
+            return est, err, True
+        prev = est
+    return est, err, False
+
+
 def ordered(d, active_last):
     """predictor dict with the active metric listed first (False) or last (True): both are valid constructor /
     predictor= arguments, the active metric is named explicitly"""
@@ -369,8 +386,11 @@ def run_heads(ctx, specs):
                     arr[k] = v
                     return head_value(spec, Stub, M, **{which: arr})
                 return head_value(spec, Stub, M, **{which: v})
-            fd = richardson(f, x0, h)
-            tol = 2e-6 * max(1.0, abs(g), abs(fd)) * max(1.0, 1e-4 / h) + 1e-11 * abs(out["v1"]) / h
+            fd, fd_err, ok = fd_estimate(f, x0, h, levels=3, floor=1e-9 * max(1.0, abs(out["v1"])))
+            if not ok:
+                ctx.h("fd_checks", "inconclusive: step sizes disagree")
+                return
+            tol = 2e-6 * max(1.0, abs(g), abs(fd)) * max(1.0, 1e-4 / h) + 1e-11 * abs(out["v1"]) / h * 27.0 + 20.0 * fd_err
             ctx.h("fd_checks", name)
             if not abs(fd - g) <= tol:
                 ctx.violation("property", "%s: returned %s = %r but central differences of the head value give %r" % (
@@ -903,8 +923,12 @@ def check_acq_gradient(ctx, acq, x, kw, head, case, what, v_scale_tol=1e-5, h=1e
             xx = x.copy()
             xx[i] = t
             return float(np.asarray(acq.compute_acq(xx.reshape(1, -1), **kw)).reshape(-1)[0])
-        fd = richardson(f, float(x[i]), h)
-        if not abs(fd - g[i]) <= v_scale_tol * max(1.0, abs(g[i]), abs(fd), abs(v1)):
+        fd, fd_err, ok = fd_estimate(f, float(x[i]), h)
+        if not ok:
+            ctx.h("acq_fd", "inconclusive: step sizes disagree")
+            continue
+        ctx.h("acq_fd", "checked")
+        if not abs(fd - g[i]) <= v_scale_tol * max(1.0, abs(g[i]), abs(fd), abs(v1)) + 20.0 * fd_err:
             ctx.violation("property", "%s (%s): d acq / d x[%d] = %r but central differences of compute_acq give %r" % (
                 head, what, i, float(g[i]), fd), case=case, signature=dict(sig, defect="input_gradient"))
     return v1, g
